@@ -11,7 +11,7 @@ open PCache Facts
 
 def CacheFactsSafe : Prop :=
   Gen.cache.storeOp = .loadOrStore ∧ Gen.cache.touchOnHit = true ∧ Gen.cache.evict = .lastUsedBeforeNowMinusTtl ∧
-  Gen.cache.keyIsShaOfText = true ∧ Gen.cache.missWithoutQueryIsNotFound = true
+  Gen.cache.keyIsShaOfText = true ∧ Gen.cache.missWithoutQueryIsNotFound = true ∧ Gen.cache.planErrorNotStored = true
 
 instance : Decidable CacheFactsSafe := by unfold CacheFactsSafe; exact inferInstance
 
